@@ -56,6 +56,31 @@ CHECKS = {
          "For grammar-generated documents the JSON and the YAML marshalling of the parsed pipeline are re-parsed and the two object models compared structurally (dynamic step types, every exported field, ordered maps in order); every command step goes through CommandStep.UnmarshalJSON and every plugin list through Plugins.UnmarshalJSON; each pipeline is marshalled 6-10 times per format and the bytes compared (maps beyond 8 entries included). Held on the documents generated.",
          "Equivalences of DESIGN.md §1.2 (numbers by value, timestamp = RFC 3339 string, typed containers nil = empty, canonical plugin source spelling); K1-K4 replayed as known findings; F6 replayed as fixed.",
          "DESIGN.md §2 C09"),
+ "C01": ("exploration",
+         "metamorphic monitor: sign -> single-point mutation -> verify must fail whenever the harness's semantic form of the presented content changed; positive controls; payload channel cross-check",
+         "Generated command steps are signed with each supported key kind; positive controls must verify (and Verify must rebuild exactly Sign's payload, read from the debug logger channel); every applicable mutation of a ~60-kind catalogue (command, step env, plugin sequence/sources/config leaves at depth, matrix, repository URL, verify-time env incl. shadowing, the signature record: algorithm, field list, spliced/truncated/bit-flipped value, replaced header; and the key) is presented and Verify must return an error whenever the independently computed semantic form differs or the record/key was altered. Held on the executions observed.",
+         "Trusts the JOSE library's cryptography; semantic form is the harness's reading of the signed content; list re-ordering/duplication and ECDSA malleability are not single-point semantic changes; K1 replayed as known finding.",
+         "DESIGN.md §2 C01"),
+ "C02": ("exploration",
+         "round-trip monitor: parse -> (interpolate) -> SignSteps -> marshal JSON/YAML -> re-parse (Parse and CommandStep.UnmarshalJSON) -> Verify every command step",
+         "Grammar-generated documents covering every shorthand, nil vs empty containers, source spellings and scalar kinds are signed and serialised three times per format; both re-parse entry points must yield command steps at the same positions whose signatures verify under the public key with env = pipeline env plus unrelated variables; four key kinds. Held on the documents generated.",
+         "Trusts Verify's discrimination (decided by C01); YAML-leg exclusion of C02's text applied; documents with unknown steps must be refused by SignSteps.",
+         "DESIGN.md §2 C02"),
+ "C04": ("exploration",
+         "reference-model monitor: generic reflective walker + interpolate library applied once per string on a twin, vs Pipeline.Interpolate; repeated runs compared for determinism",
+         "Documents whose every string (keys and values, every position class incl. cache settings, adjustment skip, unknown steps, Go maps up to 40 entries with renamed keys, alias-shared subtrees) is built around reference snippets with unique ids are interpolated 12-60 times on fresh parses; the result must equal the twin converted by an independent reflective walker and mapped through the interpolate library exactly once per string (env block per the sequential fold), signatures untouched, all runs identical, failing expansions reported. X expands to another reference so a second pass is visible. Held on the executions observed.",
+         "Trusts github.com/buildkite/interpolate for single strings; Go map iteration orders are sampled by repetition (and by the second toolchain in the thorough tier), not enumerated.",
+         "DESIGN.md §2 C04"),
+ "C06": ("exploration",
+         "structural monitor: harness tree walk over generated step lists after SignSteps (signature presence, algorithm, exact field list, verification), twin comparison, refusal on unknown steps at every depth/position",
+         "Programmatically built lists (all kinds, groups to depth 4, unknown steps placed at each depth and first/middle/last position with string/mapping/nil contents, TriggerStep by value and by pointer) and parsed lists are signed with four key kinds under nil/empty/disjoint/overlapping pipeline envs: success iff no unknown step; every command step at every depth has a verifying signature naming the key's algorithm with exactly the sorted field list; a deep twin shows nothing else changed; the env map is unchanged.",
+         "Verification uses the library's Verify (discrimination decided by C01).",
+         "DESIGN.md §2 C06"),
+ "C14": ("exploration",
+         "metamorphic + partition monitor: payload bytes from the debug logger channel vs the harness's semantic form over families of must-collide and must-differ variants",
+         "Around each generated (step, pipeline env, repository URL, key kind) a family of re-orderings/re-spellings that must give byte-identical payloads and of boundary-shifting / single-point variants that must give different payloads is signed; pairwise assertions plus a batch-wide monitor requiring the partition by payload hash to equal the partition by semantic form (tens of thousands of payloads per run).",
+         "Semantic form is the harness's reading of the signed content (numbers by value, canonical plugin source, empty = nil); integers beyond 2^53 and K1 are out of scope as stated in DESIGN.md.",
+         "DESIGN.md §2 C14"),
 }
 
 NOT_YET = {
